@@ -29,7 +29,7 @@ SPEC = os.path.join(SPECS, "obj", "MC_PSObj.tla")
 TRACE_SPEC = os.path.join(SPECS, "obj", "PSObjTrace.tla")
 ACTIONS = ["ALex", "APush", "ABegin", "AEndArray", "AEndDict", "AKwR", "AKwNull", "AFinish"]
 INITS = {"quick": ["InitQuickA", "InitQuickB"], "thorough": ["InitFullA", "InitFullB", "InitFullC"]}
-LEX_DEVS = ["OctAssert", "CRLFInBuf", "HexOddLow", "HexNulEnds", "RawEOLKept", "NulNotDelim"]
+LEX_DEVS = ["OctAssert", "CRLFInBuf", "HexOddLow", "HexNulEnds", "RawEOLKept", "NulNotDelim", "EscCharDropped", "LitHexEOFLost"]
 PARSE_DEVS = ["StreamNullKw", "StreamTopRef"]
 
 
@@ -198,6 +198,15 @@ def direction_a(ck, dev, pdev):
                     if rr != ref:
                         ck.violation("buffer-dependent", "PDFStreamParser reads %r differently at BUFSIZ=%d and 4096: %r vs %r"
                                      % (data, B, rr, ref), {"data": data, "bufsiz": B, "how": "stream"})
+                if data.endswith(b" ") and not data.endswith(b"  "):
+                    # the same bytes as the very last bytes of the input (the last member of an object stream): the object
+                    # must not depend on a byte following it
+                    for B in (1, 4096):
+                        bare = read_stream(data[:-1], B)
+                        if bare != ref:
+                            ck.violation("end-of-input", "PDFStreamParser reads %r differently when nothing follows it (BUFSIZ=%d): %r vs %r"
+                                         % (data[:-1], B, bare, ref), {"data": data[:-1], "bufsiz": B, "how": "stream"})
+                            break
                 ok = judge(ck, r, ref[0], ref[1], "stream", counters)
                 ck.case(3, ("s", data) if len(r["want"]) and ok is not None else None)
                 ck.replayed += 1
